@@ -542,6 +542,7 @@ func RunC04(c *Ctx, r *Report) {
 	r.Floors[prefix+"nil.map"] = 1
 	r.Floors[prefix+"bounds.make"] = 8
 	c.wrapOfNilRule(r, prefix+"error.wrap-of-nil", scope, 10)
+	c.formatRecursionRule(r, prefix+"term.format-recursion")
 	c.dispatchAllocEmptyRule(r, prefix+"decode.dispatch-allocates-empty")
 	if len(scope) < 30 {
 		r.undecided(prefix+"anchor", "scope size", "-", fmt.Sprintf("only %d functions reached from the decode entry points (floor 30)", len(scope)))
